@@ -680,6 +680,149 @@ Definition filter_block_logs (cutoff : N) (addrs : list N) (topics : list (list 
   if number <? cutoff then QErr 6 else QOk (filter (check addrs topics) ls).
 
 (* ------------------------------------------------------------------ *)
+(* filter.go rangeLogs while the chain and the index MOVE: the search session as a state
+   machine over an environment.  The environment calls of a session (SyncLogIndex and
+   CurrentView) are numbered by one tick counter; [env_world t] is the canonical chain and
+   the (idle) index at the time of call t, [env_valid t] the ValidBlocks range a
+   SyncLogIndex at tick t reports.  An indexed search runs between two calls, on the world
+   of the previous call.  (IndexedView of a sync = the world's chain; the hash-linked
+   block ids make ChainView.SharedRange the length of the common prefix.) *)
+Fixpoint list_eqb (a b : list N) : bool :=
+  match a, b with
+  | [], [] => true
+  | x :: a', y :: b' => (x =? y) && list_eqb a' b'
+  | _, _ => false
+  end.
+Definition log_eqb (a b : log) : bool :=
+  (lg_blk a =? lg_blk b) && (lg_tx a =? lg_tx b) && (lg_idx a =? lg_idx b) &&
+  (lg_addr a =? lg_addr b) && list_eqb (lg_topics a) (lg_topics b).
+Fixpoint block_eqb (a b : list log) : bool :=
+  match a, b with
+  | [], [] => true
+  | x :: a', y :: b' => log_eqb x y && block_eqb a' b'
+  | _, _ => false
+  end.
+(* ChainView.SharedRange = (0, shared_len) *)
+Fixpoint shared_len (c1 c2 : list (list log)) : N :=
+  match c1, c2 with
+  | b1 :: r1, b2 :: r2 => if block_eqb b1 b2 then 1 + shared_len r1 r2 else 0
+  | _, _ => 0
+  end.
+
+Record dworld := mkDW { dw_chain : list (list log); dw_ix : index; dw_rg : irange }.
+Record dsess := mkDSess {
+  d_t : nat;                        (* environment calls made so far *)
+  d_view : list (list log);         (* s.chainView *)
+  d_ib : rng;                       (* s.syncRange.IndexedBlocks *)
+  d_search : rng; d_match : rng; d_matches : list log; d_force : bool }.
+Inductive dres (A : Type) := DOk (a : A) | DErr (c : N) | DFail.
+Arguments DOk {A}. Arguments DErr {A}. Arguments DFail {A}.
+
+Definition head_of (c : list (list log)) : N := N.of_nat (length c) - 1.
+
+Section DynSession.
+Variable fuel : nat.
+Variable env_world : nat -> dworld.
+Variable env_valid : nat -> rng.
+Variable addrs : list N.
+Variable topics : list (list N).
+Variables firstB lastB : option N.     (* None = latest *)
+
+(* filter.go updateChainView (one CurrentView call) *)
+Definition d_update_view (s : dsess) : dres dsess :=
+  let nv := dw_chain (env_world (d_t s)) in
+  let head := head_of nv in
+  let f := match firstB with Some f => f | None => head end in
+  let l := match lastB with Some l => l | None => head end in
+  if l <? f then DErr 1 else
+  if head <? l then DErr 2 else
+  let sr := (f, l + 1) in
+  let '(mr, ms) :=
+      if rng_empty (d_match s) then (d_match s, d_matches s)
+      else trim_matches (rng_inter (0, shared_len nv (d_view s)) sr) (d_match s) (d_matches s) in
+  DOk (mkDSess (S (d_t s)) nv (d_ib s) sr mr ms (d_force s)).
+
+(* filter.go unindexedLogs on the session's chain view *)
+Definition d_unindexed (s : dsess) (r : rng) : dres (list log) :=
+  if head_of (d_view s) <? snd r - 1 then DErr 1 else
+  match scan (d_view s) addrs topics (fst r) (snd r - 1) with
+  | Some ms => DOk ms | None => DFail end.
+
+(* filter.go searchInRange: (matchRange, matches, forceUnindexed, ticks, IndexedBlocks) *)
+Definition d_search_in_range (s : dsess) (r : rng) (indexed force : bool)
+  : dres (rng * list log * bool * nat * rng) :=
+  let unindexed (force' : bool) :=
+      match d_unindexed s r with
+      | DOk ms => DOk (r, ms, force', d_t s, d_ib s) | DErr c => DErr c | DFail => DFail end in
+  if indexed then
+    let w := env_world (d_t s - 1) in
+    match indexed_logs fuel (dw_chain w) (dw_ix w) (dw_rg w) (fst r) (snd r - 1) addrs topics with
+    | None => DFail
+    | Some IxMatchAll => unindexed true
+    | Some (IxLogs res) =>
+        (* SyncLogIndex at tick d_t *)
+        let w' := env_world (d_t s) in
+        let trimRange := rng_inter (env_valid (d_t s)) (0, shared_len (d_view s) (dw_chain w')) in
+        let '(mr, ms) := trim_matches trimRange r res in
+        DOk (mr, ms, force, S (d_t s), indexed_blocks (dw_rg w'))
+    end
+  else unindexed force.
+
+(* filter.go doSearchIteration *)
+Definition d_iteration (s : dsess) : dres dsess :=
+  let upd (mr : rng) (ms : list log) (f : bool) (t : nat) (ib : rng) :=
+      mkDSess t (d_view s) ib (d_search s) mr ms f in
+  if rng_empty (d_match s) then
+    let isr := rng_inter (d_search s) (d_ib s) in
+    match (if negb (rng_empty isr) then d_search_in_range s isr true false
+           else d_search_in_range s (d_search s) false true) with
+    | DOk (mr, ms, f, t, ib) => DOk (upd mr ms f t ib) | DErr c => DErr c | DFail => DFail end
+  else if fst (d_search s) <? fst (d_match s) then
+    let tailRange := (fst (d_search s), fst (d_match s)) in
+    match d_search_in_range s tailRange false (d_force s) with
+    | DOk (_, tms, f, t, ib) =>
+        match rng_union tailRange (d_match s) with
+        | Some u => DOk (upd u (tms ++ d_matches s) f t ib) | None => DFail end
+    | DErr c => DErr c | DFail => DFail end
+  else if (fst (d_match s) =? fst (d_search s)) && (snd (d_match s) <? snd (d_search s)) then
+    let headRange := (snd (d_match s), snd (d_search s)) in
+    let ihr := rng_inter headRange (d_ib s) in
+    let '(headRange, force) :=
+        if d_force s then (headRange, true)
+        else if negb (rng_empty ihr) && (fst ihr =? fst headRange) then (ihr, false)
+        else (headRange, true) in
+    match d_search_in_range s headRange (negb force) force with
+    | DOk (hmr, hms, f, t, ib) =>
+        if negb (fst hmr =? snd (d_match s)) then DOk (upd hmr hms f t ib)
+        else match rng_union (d_match s) hmr with
+             | Some u => DOk (upd u (d_matches s ++ hms) f t ib) | None => DFail end
+    | DErr c => DErr c | DFail => DFail end
+  else DFail.
+
+(* for session.searchRange != session.matchRange { doSearchIteration; updateChainView } *)
+Fixpoint d_loop (n : nat) (s : dsess) : dres (list log) :=
+  match n with
+  | O => DFail
+  | S k => if rng_eqb (d_search s) (d_match s) then DOk (d_matches s)
+           else match d_iteration s with
+                | DOk s1 => match d_update_view s1 with
+                            | DOk s2 => d_loop k s2 | DErr c => DErr c | DFail => DFail end
+                | DErr c => DErr c | DFail => DFail
+                end
+  end.
+
+(* filter.go rangeLogs / newSearchSession: SyncLogIndex at tick 0, CurrentView at tick 1 *)
+Definition d_range_logs : dres (list log) :=
+  let gt := match firstB, lastB with
+            | Some f, Some l => l <? f | None, Some _ => true | _, None => false end in
+  if gt then DErr 1 else
+  let s0 := mkDSess 1 [] (indexed_blocks (dw_rg (env_world 0))) (0, 0) (0, 0) [] false in
+  match d_update_view s0 with
+  | DOk s => d_loop 8 s | DErr c => DErr c | DFail => DFail end.
+
+End DynSession.
+
+(* ------------------------------------------------------------------ *)
 (* indexer.go: the range the indexer settles on when idle (tryUnindexTail /
    tryIndexTail / needTailEpoch), for an index rendered from genesis.
    Characterisation of the fixed point, tied by correspondence only. *)
@@ -777,3 +920,7 @@ Definition index_tail_epoch (fuel : nat) (st : istate) : option istate :=
   end.
 
 End LogIndex.
+
+Arguments DOk {A}.
+Arguments DErr {A}.
+Arguments DFail {A}.
